@@ -339,14 +339,22 @@ _SB = lambda s="s": "c06_cross(%s, %s, %s, %s, %s, %s)" % (_V(0, 0, s), _V(0, 1,
 _SC = lambda s="s": "c06_cross(%s, %s, %s, %s, %s, %s)" % (_V(0, 0, s), _V(0, 1, s), _V(1, 0, s), _V(1, 1, s), _PT(0, s), _PT(1, s))   # (A, B, P)
 
 
-def _dw_row(W, s="s"):
-    """what the property says about the weights of sub-pixel s"""
-    bary = [x(s) + " / " + _TRI(s) for x in (_SA, _SB, _SC)]
+def _dw_lin(W, s="s"):
+    """what the property says about the weights of sub-pixel s, linear part: non-negative, sum to one, nearest vertex alone outside the hull"""
     return ("(" + W + "[{s}, 0] == 1 and " + W + "[{s}, 1] == 0 and " + W + "[{s}, 2] == 0 if idx[{s}, 1] == -1 else "
-            + W + "[{s}, 0] >= 0 and " + W + "[{s}, 1] >= 0 and " + W + "[{s}, 2] >= 0 and " + W + "[{s}, 0] + " + W + "[{s}, 1] + " + W + "[{s}, 2] == 1"
-            " and implies(" + " and ".join(b + " >= 0" for b in bary) + ", "
-            + " and ".join(W + "[{s}, %d] == " % j + b for j, b in enumerate(bary)) + "))").format(s=s)
+            + W + "[{s}, 0] >= 0 and " + W + "[{s}, 1] >= 0 and " + W + "[{s}, 2] >= 0 and " + W + "[{s}, 0] + " + W + "[{s}, 1] + " + W + "[{s}, 2] == 1)").format(s=s)
 
+
+def _dw_bary(W, s="s"):
+    """... and: inside the triangle (all three barycentric coordinates non-negative) the weights ARE the barycentric coordinates"""
+    bary = [x(s) + " / " + _TRI(s) for x in (_SA, _SB, _SC)]
+    return ("implies(idx[{s}, 1] != -1 and " + " and ".join(b + " >= 0" for b in bary) + ", "
+            + " and ".join(W + "[{s}, %d] == " % j + b for j, b in enumerate(bary)) + ")").format(s=s)
+
+
+# trigger for the barycentric clause: the (opaque) determinant of the first two vertices -- it is instantiated only where a proof
+# talks about that triangle, so clients that need just "non-negative, sum to one" never see the non-linear terms
+_DW_PAT = "c06_det(" + _V(0, 0) + ", " + _V(0, 1) + ", " + _V(1, 0) + ", " + _V(1, 1) + ")"
 
 contract(
     MU + "pixel_weights_delaunay_from", props=["C06"],
@@ -362,8 +370,12 @@ contract(
     ensures=["result.shape[0] == S", "result.shape[1] == 3",
              # weights are non-negative, sum to one, and are the barycentric coordinates of the point when it lies in the triangle;
              # outside the hull the nearest vertex alone carries the weight
-             "forall(0, S, lambda s: " + _dw_row("result") + ")"],
-    loops={0: {"inv": ["forall(0, sub_slim_index, lambda s: " + _dw_row("pixel_weights") + ")",
+             "forall(0, S, lambda s: " + _dw_lin("result") + ")",
+             "forall(0, S, lambda s: " + _dw_bary("result") + ", pat=" + _DW_PAT + ")",
+             # the same normalisation in the summation form mapping_matrix_from asks for (1 mapping outside the hull, 3 inside)
+             "forall(0, S, lambda s: sumto((1 if idx[s, 1] == -1 else 3), lambda c: result[s, c]) == 1)"],
+    loops={0: {"inv": ["forall(0, sub_slim_index, lambda s: " + _dw_lin("pixel_weights") + ")",
+                       "forall(0, sub_slim_index, lambda s: " + _dw_bary("pixel_weights") + ", pat=" + _DW_PAT + ")",
                        "forall(sub_slim_index, S, lambda s: pixel_weights[s, 0] == 0 and pixel_weights[s, 1] == 0 and pixel_weights[s, 2] == 0)"],
                # ghost steps for the current sub-pixel k: first the facts that need quantifier instantiation (linear), then the
                # quantifier-free real arithmetic (areas are |cross|/2; the three sub-triangle crosses add up to the triangle's)
@@ -375,7 +387,7 @@ contract(
                    "implies(idx[sub_slim_index, 1] != -1, area_0 == abs(" + _SA("sub_slim_index") + ") / 2 and area_1 == abs(" + _SB("sub_slim_index") + ") / 2 and area_2 == abs(" + _SC("sub_slim_index") + ") / 2)",
                    "implies(idx[sub_slim_index, 1] != -1, " + _SA("sub_slim_index") + " + " + _SB("sub_slim_index") + " + " + _SC("sub_slim_index") + " == " + _TRI("sub_slim_index") + ")",
                    "implies(idx[sub_slim_index, 1] != -1, norm > 0)",
-                   _dw_row("pixel_weights", "sub_slim_index")]}}},
+                   _dw_lin("pixel_weights", "sub_slim_index"), _dw_bary("pixel_weights", "sub_slim_index")]}}},
     timeout_ms=8000,
     sentence={"c06_cross": "the weights of a sub-pixel are the barycentric coordinates of its source-plane position in the triangle containing it (the nearest vertex alone if outside the hull)"},
 )
@@ -671,3 +683,43 @@ def _g_as(rng, tier):
 
 
 CONTRACTS[_AS_K].gen = _g_as
+
+
+# ----------------------------------------------------------------------------------------------- end-to-end corollary (Delaunay)
+corollary("C06.delaunay_rows_sum_to_one", props=["C06"],
+          vars={"G": "real[2]", "MG": "real[2]", "idx": "int[2]", "sz": "int[1]", "sl": "int[1]", "fr": "real[1]", "N": "int"},
+          let={"S": "sl.shape[0]", "V": "MG.shape[0]"},
+          requires=["N >= 0", "idx.shape[0] == S", "idx.shape[1] == 3", "G.shape[0] == S", "G.shape[1] == 2", "MG.shape[1] == 2",
+                    "sz.shape[0] == S", "fr.shape[0] == N",
+                    # what the simplex lookup delivers: one nearest vertex (size 1) or the three vertices of a non-degenerate simplex
+                    "forall(0, S, lambda s: (idx[s, 1] == -1 and sz[s] == 1 and 0 <= idx[s, 0] and idx[s, 0] < V) or (sz[s] == 3"
+                    " and 0 <= idx[s, 0] and idx[s, 0] < V and 0 <= idx[s, 1] and idx[s, 1] < V and 0 <= idx[s, 2] and idx[s, 2] < V"
+                    " and c06_cross(" + ", ".join("MG[idx[s, %d], %d]" % (j, d) for j in range(3) for d in range(2)) + ") != 0))",
+                    "forall(0, S, lambda s: 0 <= sl[s] and sl[s] < N)", "forall(0, N, lambda i: fr[i] >= 0)",
+                    # the sub-fractions of the sub-pixels of every image pixel add up to one
+                    "forall(0, N, lambda i: sumto(S, lambda s: (fr[i] if sl[s] == i else 0)) == 1)"],
+          calls=[("W", MU + "pixel_weights_delaunay_from", {"source_plane_data_grid": "G", "source_plane_mesh_grid": "MG",
+                                                           "slim_index_for_sub_slim_index": "sl", "pix_indexes_for_sub_slim_index": "idx"}),
+                 ("MM", MU + "mapping_matrix_from", {"pix_indexes_for_sub_slim_index": "idx", "pix_size_for_sub_slim_index": "sz",
+                                                     "pix_weights_for_sub_slim_index": "W", "pixels": "V", "total_mask_pixels": "N",
+                                                     "slim_index_for_sub_slim_index": "sl", "sub_fraction": "fr"})],
+          ensures=["forall(0, S, lambda s: sumto(sz[s], lambda c: W[s, c]) == 1)",
+                   "forall(0, N, lambda i: sumto(V, lambda p: MM[i, p]) == 1)",
+                   "forall(0, N, lambda i: forall(0, V, lambda p: MM[i, p] >= 0))"],
+          sentence="for Delaunay pixelizations every row of the mapping matrix is non-negative and sums to one")
+
+corollary("C06.rectangular_rows_sum_to_one", props=["C06"],
+          vars={"idx": "int[2]", "sz": "int[1]", "w": "real[2]", "sl": "int[1]", "fr": "real[1]", "N": "int", "P": "int"},
+          let={"S": "sl.shape[0]"},
+          requires=["N >= 0", "P >= 0", "idx.shape[0] == S", "idx.shape[1] >= 1", "w.shape[0] == S", "w.shape[1] == idx.shape[1]", "sz.shape[0] == S",
+                    "fr.shape[0] == N",
+                    # rectangular mapper: every sub-pixel maps to the one cell that contains it, with weight one (the indicator)
+                    "forall(0, S, lambda s: sz[s] == 1 and w[s, 0] == 1 and 0 <= idx[s, 0] and idx[s, 0] < P and 0 <= sl[s] and sl[s] < N)",
+                    "forall(0, N, lambda i: fr[i] >= 0)",
+                    "forall(0, N, lambda i: sumto(S, lambda s: (fr[i] if sl[s] == i else 0)) == 1)"],
+          calls=[("MM", MU + "mapping_matrix_from", {"pix_indexes_for_sub_slim_index": "idx", "pix_size_for_sub_slim_index": "sz",
+                                                     "pix_weights_for_sub_slim_index": "w", "pixels": "P", "total_mask_pixels": "N",
+                                                     "slim_index_for_sub_slim_index": "sl", "sub_fraction": "fr"})],
+          ensures=["forall(0, N, lambda i: sumto(P, lambda p: MM[i, p]) == 1)",
+                   "forall(0, N, lambda i: forall(0, P, lambda p: MM[i, p] >= 0))"],
+          sentence="for rectangular pixelizations every row of the mapping matrix is non-negative and sums to one")
